@@ -35,6 +35,7 @@ type input struct {
 	Queries []queryIn  `json:"queries"`
 	KChain  [][]int    `json:"kchain,omitempty"` // checkChainForKeyUsage alone: EKU codes per certificate (-1 = one unknown OID), leaf first
 	KReq    []int      `json:"kreq,omitempty"`
+	KValid  []int      `json:"kvalid,omitempty"` // isValid alone: type, bc, ca, pathLen, chain length
 }
 
 type world struct {
@@ -241,15 +242,24 @@ func (w *world) runQuery(c *vh.Ctx, q queryIn) (string, *violation) {
 			anyOK = true
 		}
 	}
-	opts := x509.VerifyOptions{Roots: roots, Intermediates: inters, CurrentTime: time.Unix(q.Now, 0), KeyUsages: req, DNSName: q.DNS}
+	// Now == 0 stands for a zero VerifyOptions.CurrentTime ("the current time is used"); the
+	// model and the oracle then get the wall clock (meaningful only with windows far from it)
+	eff := q.Now
+	var ct time.Time
+	if q.Now == 0 {
+		eff = time.Now().Unix()
+	} else {
+		ct = time.Unix(q.Now, 0)
+	}
+	opts := x509.VerifyOptions{Roots: roots, Intermediates: inters, CurrentTime: ct, KeyUsages: req, DNSName: q.DNS}
 	var viol *violation
 	setV := func(k, t string) {
 		if viol == nil && k != "" {
 			viol = &violation{k, t}
 		}
 	}
-	now := time.Unix(q.Now, 0)
-	head := fmt.Sprintf("mkQuery %s %s %s %s %s %s %s", vh.Nat(q.Leaf), nats(q.Roots), nats(q.Inters), vh.Z(q.Now), vh.List0(kus, "N"), vh.Str(q.DNS), queried(q.DNS))
+	now := time.Unix(eff, 0)
+	head := fmt.Sprintf("mkQuery %s %s %s %s %s %s %s", vh.Nat(q.Leaf), nats(q.Roots), nats(q.Inters), vh.Z(eff), vh.List0(kus, "N"), vh.Str(q.DNS), queried(q.DNS))
 	if q.Stupid {
 		chains, val, err := leaf.ValidateWithStupidDetail(opts)
 		flags := 0
@@ -297,7 +307,7 @@ func (w *world) runQuery(c *vh.Ctx, q queryIn) (string, *violation) {
 			}
 			if want != li {
 				setV("date-partition", fmt.Sprintf("chain with window [%d, %d] at time %d is in list %d (0 current, 1 expired, 2 never), should be in %d",
-					lo.Unix(), hi.Unix(), q.Now, li, want))
+					lo.Unix(), hi.Unix(), eff, li, want))
 			}
 		}
 	}
@@ -325,7 +335,11 @@ func (w *world) runQuery(c *vh.Ctx, q queryIn) (string, *violation) {
 }
 
 func runCase(c *vh.Ctx, in input, stream string) {
-	if len(in.KChain) > 0 {
+	if len(in.KValid) == 5 {
+		runValid(c, in.KValid[0], in.KValid[1] == 1, in.KValid[2] == 1, in.KValid[3], in.KValid[4])
+		return
+	}
+	if in.KReq != nil {
 		runK(c, in.KChain, in.KReq)
 		return
 	}
@@ -383,7 +397,7 @@ func runK(c *vh.Ctx, chain [][]int, req []int) {
 	}
 	got := x509.VerifCheckChainForKeyUsage(xs, r)
 	in := input{KChain: chain, KReq: req}
-	c.Case("kcase", vh.Pair(vh.List0(es, "(list N * nat)"), vh.List0(rs, "N"), vh.Bool(got)), in, fmt.Sprintf("%v|%v", chain, req))
+	c.Case("kcase", vh.App("KEku", vh.List0(es, "(list N * nat)"), vh.List0(rs, "N"), vh.Bool(got)), in, fmt.Sprintf("%v|%v", chain, req))
 	want := len(xs) > 0 && ekuAdmissible(xs, r)
 	if got != want {
 		c.Violation("eku-filter", fmt.Sprintf("checkChainForKeyUsage(EKUs %v leaf first, requested %v) = %v, some-usage-acceptable-to-all rule gives %v", chain, req, got, want), "kcase", in)
@@ -790,6 +804,21 @@ func gen(c *vh.Ctx) {
 	rec(nil, kd)
 	c.Exhaustive(fmt.Sprintf("checkChainForKeyUsage on every chain of length <= %d over %d EKU sets x %d requested lists", kd, len(sets), len(reqs)))
 	runK(c, [][]int{}, []int{1})
+	// isValid alone, exhaustive over the fields it reads
+	nv := 0
+	for _, ty := range []x509.CertificateType{x509.CertificateTypeLeaf, x509.CertificateTypeIntermediate, x509.CertificateTypeRoot} {
+		for _, bc := range []bool{false, true} {
+			for _, isCA := range []bool{false, true} {
+				for _, mpl := range []int{-1, 0, 1, 2, 9, 10} {
+					for n := 0; n <= 12; n++ {
+						runValid(c, int(ty), bc, isCA, mpl, n)
+						nv++
+					}
+				}
+			}
+		}
+	}
+	c.Exhaustive(fmt.Sprintf("isValid on %d combinations of certificate type / basicConstraints / cA / pathLen / chain length 0..12", nv))
 
 	np, nq := 120, 14
 	if c.Thorough {
@@ -810,11 +839,44 @@ func replay(c *vh.Ctx, raw json.RawMessage) {
 	if err := json.Unmarshal(raw, &in); err != nil {
 		panic(err)
 	}
-	if len(in.Univ) == 0 && len(in.KChain) == 0 && in.KReq == nil {
+	if len(in.Univ) == 0 && in.KReq == nil && len(in.KValid) == 0 {
 		gen(c)
 		return
 	}
 	runCase(c, in, "case")
+}
+
+func runValid(c *vh.Ctx, tyI int, bc, isCA bool, mpl, n int) {
+	ty := x509.CertificateType(tyI)
+	x := &x509.Certificate{BasicConstraintsValid: bc, IsCA: isCA, MaxPathLen: mpl}
+	ch := make(x509.CertificateChain, n)
+	for i := range ch {
+		ch[i] = &x509.Certificate{}
+	}
+	ok, reason := x509.VerifIsValid(x, ty, ch)
+	code := uint64(0)
+	if !ok {
+		code = 10 + uint64(reason)
+	}
+	in := input{KValid: []int{tyI, b2i(bc), b2i(isCA), mpl, n}}
+	c.Case("kcase", vh.App("KValid", vh.NI(tyI), vh.Bool(bc), vh.Bool(isCA), vh.Z(int64(mpl)), vh.Nat(n), vh.N(code)), in, fmt.Sprint(in.KValid))
+	// the property's reading: an intermediate must be a CA; at most MaxPathLen intermediates below; depth limit
+	want := uint64(0)
+	if ty == x509.CertificateTypeIntermediate && !(bc && isCA) {
+		want = 10
+	} else if (bc && mpl >= 0 && n-1 > mpl) || n > 10 {
+		want = 16
+	}
+	if code != want {
+		c.Violation("isvalid", fmt.Sprintf("isValid(type %d, bc %v, ca %v, pathLen %d, chain of %d) = code %d, rule gives %d", tyI, bc, isCA, mpl, n, code, want), "kcase", in)
+	}
+}
+
+func b2i(b bool) int {
+	if b {
+		return 1
+	}
+	return 0
 }
 
 var _ = strings.Join
